@@ -281,6 +281,8 @@ mod sync;
 mod table;
 mod tracing;
 mod tracked_struct;
+#[cfg(salsa_rs_salsa_verif)]
+pub mod verif;
 mod views;
 mod zalsa;
 mod zalsa_local;
